@@ -29,7 +29,9 @@ RULE = ("Programs of 3-14 lines decoded from a Hypothesis-drawn genome: DATA sta
         "forms, empty items, a last item whose quote is closed only by the end of the line; lines "
         "ending inside a string literal (Z$=\"x, IF .. THEN PRINT \"x) and comments with an odd "
         "number of quotes between the data pointer and the next DATA; READ lists of 1-4 targets of type $ % ! #; RESTORE, RESTORE n with n a "
-        "DATA line, a line before one, the last line, a missing line.  Run under ON ERROR GOTO with "
+        "the first line of the program (with and without a DATA statement on it), a DATA line, a "
+        "line without DATA, the lowest generated line, the last line, a missing line (target "
+        "position is a generated dimension).  Run under ON ERROR GOTO with "
         "RESUME NEXT, or untrapped (stops at the first error).  Non-trivial: at least two visible "
         "DATA statements on different lines and an executed RESTORE, or an empty item or a quoted "
         "item containing a comma/colon is read; distinct = distinct case.")
@@ -93,6 +95,9 @@ def program_text(case):
     if case['route'] == 'trap':
         out.append('1 ON ERROR GOTO 9000')
     out.append('2 DIM S$(%d),I%%(%d),F!(%d),D#(%d),E%%(%d),L!(%d),T%%(%d)' % ((MAXSLOT,) * 7))
+    if case.get('head'):
+        # a DATA statement on the very first line of the program (behind its other statement)
+        out[0] += ':' + ' ' * case['head'][0] + render_stmt(case['head'][1], 0)
     pads = case.get('pads') or []
     for li, (lineno, stmts) in enumerate(case['lines']):
         parts = []
@@ -135,6 +140,16 @@ def to_type(v, t):
     return v
 
 
+def first_line(case):
+    return 1 if case['route'] == 'trap' else 2
+
+
+def visible_lines(case):
+    """Lines with their statements, the head DATA of the first program line included."""
+    head = [[first_line(case), [case['head'][1]]]] if case.get('head') else []
+    return head + case['lines']
+
+
 def model(case):
     """-> (statements, items, info)
     statements: list of dicts per READ/RESTORE statement in execution order:
@@ -145,7 +160,7 @@ def model(case):
         linenos.append(1)
     linenos.append(2)
     ndata_lines = set()
-    for lineno, stmts in case['lines']:
+    for lineno, stmts in visible_lines(case):
         for stm in stmts:
             if stm[0] == 'rem':
                 break
@@ -157,7 +172,8 @@ def model(case):
     out = []
     ptr = 0             # None = unknown
     seq = 0
-    info = {'restores': 0, 'special-read': False, 'data-lines': len(ndata_lines)}
+    info = {'restores': 0, 'special-read': False, 'data-lines': len(ndata_lines),
+            'restore-targets': set()}
     for lineno, stmts in case['lines']:
         hidden = False
         for stm in stmts:
@@ -175,6 +191,10 @@ def model(case):
                     ptr = 0
                     info['restores'] += 1
                 elif stm[1] in linenos:
+                    info['restore-targets'].add(
+                        'first-line' if stm[1] == min(linenos) else
+                        'last-line' if stm[1] >= 8999 else
+                        'data-line' if stm[1] in ndata_lines else 'line-without-data')
                     ptr = len(items)
                     for i, it in enumerate(items):
                         if it[0] >= stm[1]:
@@ -182,6 +202,7 @@ def model(case):
                             break
                     info['restores'] += 1
                 else:
+                    info['restore-targets'].add('missing-line')
                     rec['event'] = (8, lineno)
                     ptr = None
                 out.append(rec)
@@ -219,7 +240,7 @@ def model(case):
 def _first_in_stmt(case, idx):
     """Is global item idx the first item of its DATA statement?"""
     n = 0
-    for lineno, stmts in case['lines']:
+    for lineno, stmts in visible_lines(case):
         for stm in stmts:
             if stm[0] == 'rem':
                 break
@@ -331,6 +352,10 @@ def check_case(case):
     res.nt((info['data-lines'] >= 2 and executed_restore) or info['special-read'])
     if executed_restore:
         res.label('restore-executed')
+    for tgt in sorted(info['restore-targets']):
+        res.label('restore-target.' + tgt)
+    if case.get('head'):
+        res.label('data-on-first-program-line')
     if info['special-read']:
         res.label('special-item-read')
     return res
@@ -377,6 +402,7 @@ def build(data, route):
     if not any(r in ('data', 'mixed', 'readdata') for r in roles):
         roles[-1] = 'data'
     datalines = [ln for ln, r in zip(linenos, roles) if r in ('data', 'mixed', 'readdata')]
+    first = 1 if route == 'trap' else 2
 
     def item(prefer_num):
         k = g.take(10)
@@ -428,7 +454,13 @@ def build(data, route):
                 datas[ln][-1][1].append(['o', g.pick(OPENITEM), g.pick([0, 1]), 0])
         elif role == 'mixed':
             datas[ln] = [data_stmt()]
+    head = None
+    if g.take(3) == 0:
+        head = [g.pick([0, 1, 1, 2]), data_stmt()]
     items = []
+    if head:
+        for it in (head[1][1] or [['e', '', 0, 0]]):
+            items.append((first, it[0]))
     for ln in linenos:
         for d in datas.get(ln, []):
             for it in (d[1] or [['e', '', 0, 0]]):
@@ -461,15 +493,23 @@ def build(data, route):
         return ['read', tg or [['$', MAXSLOT]]]
 
     def restore_stmt():
-        k = g.take(8)
-        if k < 2 or not datalines:
+        # target position is a dimension of its own: none / first program line / a DATA line /
+        # any line / lowest generated line / last line / absent line
+        k = g.take(11)
+        if k < 2:
             tgt = None
-        elif k < 5:
+        elif k < 4:
+            tgt = first
+        elif k < 6 and datalines:
             tgt = g.pick(datalines)
-        elif k == 5:
-            tgt = g.pick(linenos)
         elif k == 6:
+            tgt = g.pick(linenos)
+        elif k == 7:
+            tgt = linenos[0]
+        elif k == 8:
             tgt = 8999
+        elif k == 9:
+            tgt = 9000
         else:
             m = g.pick(linenos) + 1
             tgt = 9 if m in linenos else m
@@ -534,7 +574,7 @@ def build(data, route):
         lines.append([linenos[-1] + 7, reads() + [read_stmt()]])
     # blanks in front of every statement: 10 X=X+1:  DATA 1,2
     pads = [[g.pick([0, 1, 0, 2, 1, 3]) for _ in st_] for _, st_ in lines]
-    return {'lines': lines, 'route': route, 'pads': pads}
+    return {'lines': lines, 'route': route, 'pads': pads, 'head': head}
 
 
 def strat():
@@ -550,6 +590,15 @@ def units(tier):
 
 
 REGRESSIONS = [
+    # RESTORE n with n the first line of the program (offset 0 in the line table)
+    {'lines': [[10, [['data', [['n', '1', 0, 0], ['n', '2', 0, 0]]]]],
+               [20, [['read', [['%', 0], ['%', 1], ['%', 2]]]]],
+               [30, [['restore', 2], ['read', [['%', 3], ['%', 4]]]]],
+               [40, [['restore', 10], ['read', [['%', 5]]]]]],
+     'head': [1, ['data', [['n', '7', 0, 0]]]], 'route': 'stop'},
+    {'lines': [[10, [['data', [['n', '1', 0, 0]]]]], [20, [['read', [['%', 0]]]]],
+               [30, [['restore', 1], ['read', [['%', 1]]]]],
+               [40, [['restore', 9000], ['read', [['%', 2]]]]]], 'route': 'trap'},
     # DATA behind ': ' (blank after the colon), reached by first READ, running on, RESTORE n
     {'lines': [[10, [['let'], ['data', [['n', '1', 0, 0], ['n', '2', 0, 0]]]]],
                [20, [['let'], ['data', [['q', 'a', 0, 2]]], ['data', [['n', '3', 0, 0]]]]],
